@@ -364,6 +364,105 @@ def rule_find_mapping(ctx):
               "the scan predicate is not start <= address < start + size, e.g. at start=%#x size=%#x address=%#x" % ((bad[0]["S"], bad[0]["Z"], bad[0]["A"]) if bad else (0, 0, 0)))
 
 
+def bool_fn_truth(prog, body, leaf, depth=0):
+    """truth of a bool-returning function/closure under `leaf` (expr -> int/bool or None): OR over the definitions of the return
+    place (assignments and call destinations) of (path condition of the defining block) AND (defined value)"""
+    co = Origin(body)
+    defs = []
+    rel = lambda a: True
+    for bi, blk in enumerate(body.blocks):
+        if blk["cleanup"]:
+            continue
+        for si, st in enumerate(blk["stmts"]):
+            if st["k"] == "assign" and st["p"]["l"] == 0 and not st["p"]["proj"]:
+                defs.append((bi, co._rvalue(st["r"], (bi, si), 0)))
+        t = blk["term"]
+        if t["k"] == "call" and t.get("dest") and t["dest"]["l"] == 0 and not t["dest"]["proj"]:
+            defs.append((bi, co.call_expr(bi)))
+    if not defs:
+        raise ipe.Unsupported("no definition of the result")
+
+    def full_leaf(e):
+        r = leaf(e)
+        if r is not None:
+            return (int(r), "bool") if isinstance(r, bool) else r
+        e_ = core(e)
+        if e_[0] == "call" and e_[1].split("::")[-1] == "is_some_and" and len(e_[2]) == 2 and depth < 3:
+            cl = strip(e_[2][1])
+            opt = full_leaf(("call", "std::option::Option::is_some", (e_[2][0],), None))
+            if cl[0] == "closure" and opt is not None and prog.by_short.get(cl[1]):
+                inner = bool_fn_truth(prog, prog.by_short[cl[1]][0], leaf, depth + 1)
+                return (int(bool(opt[0]) and inner), "bool")
+        return None
+    ev = ipe.Eval({}, {}, leaf=full_leaf)
+    out = False
+    for bi, val in defs:
+        dnf = conditions(body, bi, origin=co, relevant=rel)
+        if dnf is None:
+            raise ipe.Unsupported("path condition too large")
+        if any(all(ev.lit(a, v) for (a, v) in c) for c in dnf) and ev.val(core(val))[0] == 1:
+            out = True
+    return out
+
+
+PERM_BITS = {1: "R", 2: "W", 4: "X"}   # procfs MMPermissions (bitflags): READ, WRITE, EXECUTE
+
+
+def rule_plausible_stack(ctx):
+    """get_stack_info accepts a mapping as (part of) a stack through may_be_stack: readable OR writable, as Breakpad does —
+    a read-only mapping that holds the stack pointer is 'readable memory' in the sense of the property"""
+    R = "C06/plausible-stack"
+    b = ctx.body(R, "linux::ptrace_dumper::PtraceDumper::may_be_stack")
+    if b is None:
+        return
+    bad = []
+    try:
+        for some, r, w, x in itertools.product((0, 1), repeat=4):
+            env = {"R": r, "W": w, "X": x}
+
+            def mask(e):
+                e = core(e)
+                if is_const(e) and isinstance(e[1], int):
+                    return e[1]
+                if e[0] == "call" and e[1].split("::")[-1] in ("bitor", "union") and len(e[2]) == 2:
+                    a_, b_ = mask(e[2][0]), mask(e[2][1])
+                    return None if a_ is None or b_ is None else a_ | b_
+                return None
+
+            def leaf(e, some=some, env=env):
+                e = core(e)
+                bits = sum(k for k, n in PERM_BITS.items() if env[n])
+                if e[0] == "discr":
+                    return (some, "isize")
+                if e[0] == "call":
+                    ls = e[1].split("::")[-1]
+                    if ls == "is_some":
+                        return bool(some)
+                    if ls == "is_none":
+                        return not some
+                    if ls in ("is_readable", "is_writable", "is_executable"):
+                        return bool(env[{"is_readable": "R", "is_writable": "W", "is_executable": "X"}[ls]])
+                    if ls in ("intersects", "contains") and len(e[2]) == 2:
+                        m_ = mask(e[2][1])
+                        if m_ is None:
+                            raise ipe.Unsupported("permission mask %s" % show(e[2][1])[:60])
+                        return bool(bits & m_) if ls == "intersects" else (bits & m_) == m_
+                return None
+            got = bool_fn_truth(ctx.prog, b, leaf)
+            if got != bool(some and (r or w)):
+                bad.append("mapping %s, %s%s%s -> %s" % ("present" if some else "absent", "r" if r else "-", "w" if w else "-", "x" if x else "-", got))
+    except ipe.Unsupported as e:
+        ctx.unproven(R, "predicate", b.where(0), "cannot evaluate may_be_stack: %s" % e)
+        return
+    ctx.check(not bad, R, "predicate", b.where(0), "a mapping is a plausible stack iff it exists and is readable or writable (16-row truth table)",
+              "may_be_stack is not `exists and (readable or writable)`: %s" % "; ".join(bad[:4]))
+    # and get_stack_info consults it
+    g = ctx.body(R, "linux::ptrace_dumper::PtraceDumper::get_stack_info")
+    if g is not None:
+        uses = list(g.calls(lambda c: (c.short or "").endswith("PtraceDumper::may_be_stack")))
+        ctx.floor(R, "may_be_stack calls in get_stack_info", len(uses), 1)
+
+
 def rule_who_is_shortened(ctx):
     R = "C06/who-is-shortened"
     b = ctx.body(R, TLW)
@@ -557,3 +656,4 @@ def run(ctx):
     rule_descriptor_agrees(ctx)
     rule_page_start(ctx)
     rule_find_mapping(ctx)
+    rule_plausible_stack(ctx)
